@@ -1,6 +1,8 @@
 """Shared by C03 / C10 / C12 / C13: build same-CRS GeoBox pairs from a rational destination-to-source pixel map."""
 import math
 
+from .core import idx
+
 D = 960
 CRS = "epsg:3857"
 
@@ -30,7 +32,7 @@ def boxes(c):
 
 
 def roi4(roi):
-    return [int(roi[0].start), int(roi[0].stop), int(roi[1].start), int(roi[1].stop)]
+    return [idx(roi[0].start), idx(roi[0].stop), idx(roi[1].start), idx(roi[1].stop)]
 
 
 def plan(c):
